@@ -614,7 +614,14 @@ class World:
         try:
             self._run_inner()
         except HarnessAbort as e:
-            self.harness = "abort: %s" % e
+            if str(e).startswith("deadlock") and self.sched.client.state == "B" and self.violation is None:
+                # every actor of the code under test is blocked and nothing can ever wake them: the operation
+                # will never return.  Deterministic and replayable, so it is reported as a violation (the
+                # properties presuppose that a request returns), not as a harness problem.
+                clause = "19d-deadlock" if self.prop == "C19" else "18a-deadlock"
+                self.violation = (self.prop, clause, "the operation never returns: %s" % e, self.director.op)
+            else:
+                self.harness = "abort: %s" % e
         except SimUnsupported as e:
             self.harness = "unsupported: %s" % e
         finally:
